@@ -457,7 +457,7 @@ static int replay_history(OggVorbis_File *vf,uint64_t hseed,int hs,const refdec_
     if(vh_trace) fprintf(stderr,"  hist op %d (tell %lld)\n",c,(long long)ov_pcm_tell(vf));
     if(c==0){ ogg_int64_t p=ref->total?rng_range(&r,0,(long)ref->total):0; if(ov_pcm_seek(vf,p)) return -2; }
     else if(c==1){ ogg_int64_t p=rng_range(&r,0,(long)nbytes); if(ov_raw_seek(vf,p)) return -3; }
-    else if(c==2){ int l=(int)rng_below(&r,ref->nlinks); ogg_int64_t p=ref->l[l].start+ref->l[l].len-rng_range(&r,0,700); if(p<0)p=0; if(ov_pcm_seek(vf,p)) return -4; }
+    else if(c==2){ int l=(int)rng_below(&r,ref->nlinks); ogg_int64_t p=ref->l[l].start+ref->l[l].len-(rng_chance(&r,0.4)?rng_range(&r,0,160):rng_range(&r,0,700)); if(p<0)p=0; if(ov_pcm_seek(vf,p)) return -4; }
     else if(c==3){ ogg_int64_t p=ref->total-rng_range(&r,0,400); if(p<0)p=0; if(ov_pcm_seek(vf,p)) return -5; }
     else { int k=(int)rng_range(&r,1,4); for(int j=0;j<k;j++) if(ov_read_float(vf,&pcm,(int)rng_range(&r,1,1500),&bs)<0) return -6; }
   }
@@ -533,17 +533,31 @@ static void case_c19(const drvargs_t *a,long id){
     long pend=vorbis_synthesis_pcmout(&A.vf.vd,NULL);
     /* old_next: what C delivers next without leaving its link; at end of stream fall back to lapout / silence */
     float *oldn[256]; int have_old=old_unambiguous; for(int c=0;c<ch_old&&c<256;c++) oldn[c]=calloc(n_old>0?n_old:1,sizeof(float));
+    int old_tail=0;
     if(old_unambiguous){
       long cnt=0; int link0=c_link;
-      while(cnt<n_old){
-        float **pc; int bsc; ogg_int64_t before=ov_pcm_tell(&C.vf);
-        long g=ov_read_float(&C.vf,&pc,n_old-(int)cnt,&bsc);
+      /* samples left in the old link at the old position; never ask C for more, so that its decoder still belongs to that link */
+      ogg_int64_t lend=F.l[link0].start+F.l[link0].len;
+      long rem= old>=lend ? 0 : (long)(((lend-old)+hs)>>hs);
+      long lim= rem<n_old?rem:n_old;
+      while(cnt<lim){
+        float **pc; int bsc;
+        long g=ov_read_float(&C.vf,&pc,(int)(lim-cnt),&bsc);
         if(g<=0) break;
-        if(bsc!=link0){ (void)before; break; }
+        if(bsc!=link0) break;
         for(int c=0;c<ch_old&&c<256;c++) memcpy(oldn[c]+cnt,pc[c],sizeof(float)*g);
         cnt+=g;
       }
-      if(cnt<n_old) have_old=0; /* end of link/stream: library uses lapout/zeros; content formula not asserted there */
+      if(cnt<lim) have_old=0;
+      else if(cnt<n_old){
+        /* end of the link: the rest is the decoder's pending overlap half (public vorbis_synthesis_lapout), or silence */
+        if(C.vf.ready_state==4 && C.vf.current_link==link0){
+          float **lp; int ls=vorbis_synthesis_lapout(&C.vf.vd,&lp);
+          if(ls>n_old-cnt) ls=(int)(n_old-cnt);
+          for(int c=0;c<ch_old&&c<256;c++) if(ls>0) memcpy(oldn[c]+cnt,lp[c],sizeof(float)*ls);
+          old_tail= cnt>0?2:1;
+        } else have_old=0;
+      }
     }
     /* read from both twins in lockstep and compare */
     long idx=0; int fail=0; long want=n+ (long)rng_range(&r,200,3000);
@@ -564,9 +578,9 @@ static void case_c19(const drvargs_t *a,long id){
         double tol=4e-6*(fabs(abuf[c][i])+(c<ch_old?fabs(oldn[c][i]):0))+1e-9;
         if(fabs(bbuf[c][i]-e)>tol){ res_viol("C19","lap-region-not-crossfade","%s: ch %d i %d of %d: lapped %.9g expected %.9g (new %.9g old %.9g w2 %.6f)",ctx,c,i,n,bbuf[c][i],e,abuf[c][i],c<ch_old?oldn[c][i]:0.0,wd); fail=1; break; }
       }
-      if(!fail) res_count("crossfade_regions_verified",1);
+      if(!fail) res_count(old_tail==2?"crossfade_verified_straddling_link_end":old_tail?"crossfade_regions_verified_at_link_end":"crossfade_regions_verified",1);
     }
-    if(!fail) res_bucket("%s|cls%d|hs%d|%s|%s|ch%d-%d",nm[api],cls,hs,have_old?"old-mid":"old-end",n_old==n_new?"same-bs":"diff-bs",ch_old>2?3:ch_old,ch>2?3:ch);
+    if(!fail) res_bucket("%s|cls%d|hs%d|%s|%s|ch%d-%d",nm[api],cls,hs,have_old?(old_tail==2?"old-straddle":old_tail?"old-tail":"old-mid"):"old-end",n_old==n_new?"same-bs":"diff-bs",ch_old>2?3:ch_old,ch>2?3:ch);
     for(int c=0;c<ch&&c<256;c++){ free(abuf[c]); free(bbuf[c]); }
     for(int c=0;c<ch_old&&c<256;c++) free(oldn[c]);
     h_close(&A);h_close(&B);h_close(&C);
